@@ -28,6 +28,7 @@ ASSUMPTIONS = [
     "a process can only vary hash seed, ASLR/object ids, UUID draws, registration order and set layouts; order-independence is not proven",
 ]
 K = {"quick": 3, "thorough": 8}
+SHRINK_STEPS = {"quick": 30, "thorough": 150}   # every step spawns child interpreters
 
 
 def calibrate():
